@@ -139,6 +139,7 @@ impl Report {
                     e.1 = f.clone();
                     e.2 = label.clone();
                     e.3 = case.clone();
+                    e.4 = s.name.clone();
                 }
             }
             sections_json.push(json!({
